@@ -16,13 +16,17 @@ TRUSTED = [
 ]
 
 CONV = re.compile(r"^[a-z_][a-z0-9_]*$")
-WORDS = [w for w in FIELD_WORDS if CONV.match(w) and rust_ident(w)]
+# word shapes beyond the plain ones: a segment that starts with a digit, digit-only segments, doubled / trailing / leading
+# underscores, one-letter segments, digits inside segments
+SHAPES = ["is_3d_secure", "oauth_2fa_token", "ipv_4addr", "line_1", "a__b", "trailing_", "x_1y", "a1b2_c3", "_9lives", "v_2_0",
+          "k_", "__init", "n_1st_2nd"]
+WORDS = [w for w in FIELD_WORDS if CONV.match(w) and rust_ident(w)] + SHAPES
 # the 40-identifier dictionary of the exhaustive tier: shapes (digits, leading / inner / multiple underscores, one letter)
 # and keywords of every target language (as raw identifiers where Rust needs it); no two collide under any rule
-DICT40 = ["id", "user_id", "created_at", "address_line1", "x", "b1", "is_ok", "very_long_field_name", "n2", "_private", "a_b_c",
+DICT = ["id", "user_id", "created_at", "address_line1", "x", "b1", "is_ok", "very_long_field_name", "n2", "_private", "a_b_c",
           "type", "class", "default", "object", "func", "var", "val", "in", "is", "as", "fun", "package", "import", "interface",
           "enum", "struct", "protocol", "extension", "public", "static", "switch", "case", "return", "throw", "nil", "true",
-          "let", "where", "from"]
+          "let", "where", "from"] + SHAPES
 KEYWORD_RENAMES = ["class", "type", "in", "default", "func", "var", "val", "is", "as", "fun", "package", "import", "interface",
                    "enum", "struct", "protocol", "extension", "private", "public", "internal", "static", "switch", "case",
                    "break", "continue", "return", "throw", "try", "catch", "self", "super", "nil", "true", "false", "let",
@@ -173,7 +177,9 @@ TS_FIELD = re.compile(r'^\t(?:readonly )?("(?:[^"\\]|\\.)*"|[^\s/*"][^\s:?]*)(\?
 def ts_key(name):
     if name.startswith('"'):
         return debug_unescape(name[1:-1])
-    return name if re.fullmatch(r"[A-Za-z_$][A-Za-z0-9_$]*", name) else "<not a property name: %s>" % name
+    # the token as written is the key the declaration carries (the same reading as the Lean `TypeScript.boundKey`); that a
+    # token such as `9lives` (from `_9lives` under camelCase) is not a well-formed property name is C10's subject
+    return name if re.fullmatch(r"[A-Za-z0-9_$]+", name) else "<not a property name: %s>" % name
 
 
 def ext_typescript(text):
@@ -335,7 +341,9 @@ def ext_python(text):
             continue
         if doc:
             continue
-        m = re.match(r"^    ([A-Za-z_]\w*): (.*)$", line)
+        # `\w+`, not an identifier pattern: Python's snake-casing can produce attribute names such as `9_lives` (from
+        # `_9lives`), which is not valid Python - a well-formedness matter (C10); the key binding is still the alias
+        m = re.match(r"^    (\w+): (.*)$", line)
         if m:
             am = re.search(r' = Field\(alias="(.*?)"(?:, default=[^()]*)?\)$', m.group(2))
             out[cur].append(am.group(1) if am else m.group(1))
@@ -518,7 +526,7 @@ def grid_file(rule, rkind, ckind, idents, spell):
         elif rkind == "dashed":
             serde.append(m_nv("rename", lit_s(["with-dash%d", "a-b-%d", "kebab-case-name%d", "X-%d"][j % 4] % j)))
         elif rkind == "keyword":
-            serde.append(m_nv("rename", lit_s(KEYWORD_RENAMES[j])))
+            serde.append(m_nv("rename", lit_s(KEYWORD_RENAMES[j] if j < len(KEYWORD_RENAMES) else "%s%d" % (KEYWORD_RENAMES[j % len(KEYWORD_RENAMES)], j))))
         if (j + spell) % 3 == 0:
             serde.append(m_path("default"))
         if not serde:
@@ -578,7 +586,7 @@ def run(check):
     for rule in [None] + RULES:
         for rkind in ("absent", "plain", "dashed", "keyword"):
             for ckind in ("struct", "variant-enum-rule", "variant-own-rule"):
-                f = grid_file(rule, rkind, ckind, DICT40, cell_no)
+                f = grid_file(rule, rkind, ckind, DICT, cell_no)
                 langs = LANGS if check.thorough else [LANGS[cell_no % 6]]
                 for lang in langs:
                     cases.append(dict(file=f, gen=NoExt(), lang=lang, cfg=config(rng, lang), nontrivial=bool(rule) or rkind != "absent",
@@ -658,7 +666,7 @@ def all_attr_lists(file):
 def spec_tie(check, cases):
     """the python port of RenameRule::apply_to_field (the oracle's ground truth) against the vendored serde_derive case.rs
     (through the runner) and against the Lean port, on every identifier the cases use"""
-    idents = set(DICT40) | set(WORDS)
+    idents = set(DICT) | set(WORDS)
     reqs, mreqs, meta = [], [], []
     for w in sorted(idents):
         for rule in RULES:
